@@ -1,4 +1,4 @@
-(* C07 requests: 700..712. *)
+(* C07 requests: 700..713. *)
 From Coq Require Import List ZArith Bool.
 From PV Require Import lib.Sx lib.Str lib.Result.
 From PV Require Import model.DfxpXml model.DfxpRegion model.DfxpDoc spec.SpecXmlAttr extract.OrCommon.
@@ -117,6 +117,14 @@ Definition dispatch (code : Z) (arg : sx) : option sx :=
                  | SL [content; ids; rids] =>
                      match sx_listof sx_pair content, sx_listof sx_str ids, sx_listof sx_str rids with
                      | Some c, Some ids, Some rids => of_pairs (legacy_recreate_style c ids rids) | _, _, _ => bad end
+                 | _ => bad end)
+  | 713 => Some (match arg with          (* [positioning; dset] -> summary of the single-positioning document, dom_single *)
+                 | SL [pl; ds] =>
+                     match sx_lay pl, sx_dset ds with
+                     | Some pl, Some d => let s := summarize (single_positioning pl d) in
+                             SL [of_list SS (s_ids s); of_list SS (s_style_ids s); of_list SS (s_region_ids s);
+                                 of_list SS (s_style_refs s); of_list SS (s_region_refs s); of_bool (dom_single pl d)]
+                     | _, _ => bad end
                  | _ => bad end)
   | _ => None
   end.
